@@ -473,3 +473,43 @@ func VfC18_InstructionFlagSets() {
 		}
 	}
 }
+
+// VfC18_TypeKeywords: the floating-point kind keywords end to end through the
+// real printer and parser: a module built with the constructors uses the kind
+// as a return type, a parameter type, the element type of a global array and a
+// field of an identified struct; the kind read back at each site is the kind
+// written (the table-level round trip of FloatKindFromString is a generated
+// entry).
+//
+//vf:unwind 300
+func VfC18_TypeKeywords() {
+	kinds := [...]types.FloatKind{types.FloatKindHalf, types.FloatKindFloat, types.FloatKindDouble, types.FloatKindFP128, types.FloatKindX86_FP80, types.FloatKindPPC_FP128}
+	k := kinds[vfChoice("kind", len(kinds))]
+	ft := &types.FloatType{Kind: k}
+	m := ir.NewModule()
+	m.NewTypeDef("T", types.NewStruct(&types.FloatType{Kind: k}, types.I8))
+	m.NewGlobalDef("g", constant.NewZeroInitializer(types.NewArray(2, &types.FloatType{Kind: k})))
+	m.NewFunc("f", ft, ir.NewParam("p", &types.FloatType{Kind: k}))
+	vfReach("C18.typekeyword")
+	s := m.String()
+	vfObserveStr("printed", s)
+	m2, err := ParseString("t.ll", s)
+	vfAssert("C18.typekeyword.reparses", err == nil)
+	if err != nil {
+		return
+	}
+	kindOf := func(t types.Type) types.FloatKind {
+		if f, ok := t.(*types.FloatType); ok {
+			return f.Kind
+		}
+		return types.FloatKind(250)
+	}
+	f2 := m2.Funcs[0]
+	vfAssert("C18.typekeyword.return-type", kindOf(f2.Sig.RetType) == k)
+	vfAssert("C18.typekeyword.parameter-type", kindOf(f2.Params[0].Type()) == k)
+	at, ok := m2.Globals[0].ContentType.(*types.ArrayType)
+	vfAssert("C18.typekeyword.array-element", vfAnd(ok, ok && kindOf(at.ElemType) == k))
+	st, ok2 := m2.TypeDefs[0].(*types.StructType)
+	vfAssert("C18.typekeyword.struct-field", vfAnd(ok2, ok2 && kindOf(st.Fields[0]) == k))
+	vfAssert("C18.typekeyword.fixpoint", m2.String() == s)
+}
